@@ -155,9 +155,9 @@ Fixpoint fo_wf (x : rnode) : bool :=
       fo_arity_ok t (length kids) &&
       (if is_set_family t then match st with Some c => cls_okb c | None => false end else true) &&
       (match lk_of t with Some _ => (0 <=? m) && (m <=? n) && (m <? INF) | None => true end) &&
-      (if (t =? 26) || (t =? 27) then (0 <=? m) && (m <=? n) else true) &&
+      (if (t =? 26) || (t =? 27) then (0 <=? m) && (m <=? n) && (m <? INF) else true) &&
       (if t =? 12 then negb (fo_is_nil str) && negb (useI o) else true) &&
-      (if t =? 9 then negb (useI o) else true) &&
+      (if (t =? 13) || (t =? 28) then true else negb (useI o)) &&
       forallb fo_wf kids
   end.
 
@@ -166,9 +166,9 @@ Lemma fo_wf_unfold x :
   (fo_arity_ok (n_t x) (length (n_kids x)) &&
    (if is_set_family (n_t x) then match n_set x with Some c => cls_okb c | None => false end else true) &&
    (match lk_of (n_t x) with Some _ => (0 <=? n_m x) && (n_m x <=? n_n x) && (n_m x <? INF) | None => true end) &&
-   (if (n_t x =? 26) || (n_t x =? 27) then (0 <=? n_m x) && (n_m x <=? n_n x) else true) &&
+   (if (n_t x =? 26) || (n_t x =? 27) then (0 <=? n_m x) && (n_m x <=? n_n x) && (n_m x <? INF) else true) &&
    (if n_t x =? 12 then negb (fo_is_nil (n_str x)) && negb (useI (n_o x)) else true) &&
-   (if n_t x =? 9 then negb (useI (n_o x)) else true) &&
+   (if (n_t x =? 13) || (n_t x =? 28) then true else negb (useI (n_o x))) &&
    forallb fo_wf (n_kids x)).
 Proof. destruct x. reflexivity. Qed.
 
